@@ -188,45 +188,52 @@ deriving Repr, DecidableEq
 section step
 variable {R : Type} [LT R] [LE R] [∀ a b : R, Decidable (a < b)] [∀ a b : R, Decidable (a ≤ b)]
 
-/-- one op. `spec = false`: the code (`check` over the code-shaped view); `spec = true`: the property
-    (`specBlocked` over the reference view) -/
+/-- the decision on an entry: `spec = false` the code (`check` over the code-shaped view),
+    `spec = true` the property (`specBlocked` over the reference view) -/
+def blockedBy (A : Arith R) (spec : Bool) (s : St R) (inbound : Bool) : Bool :=
+  if spec then specBlocked A inbound s.rules (viewOf true s) else (check A inbound s.rules (viewOf false s)).isSome
+
+/-- `OnEntryBlocked`: the block is counted on the inbound node (only inbound entries are ever blocked here) -/
+def onBlocked (s : St R) (batch : Nat) : St R := record s (evBucket .block batch)
+
+/-- `OnEntryPassed` → `recordPassFor(InboundNode())` for inbound entries: gauge +1, peak sample, pass += batch -/
+def onPassed (s : St R) (e : Entry) : St R :=
+  if e.inbound then
+    let s := { s with conc := s.conc + 1 }
+    let s := record s (concBucket s.conc)
+    let s := record s (evBucket .pass e.batch)
+    { s with live := e :: s.live }
+  else { s with live := e :: s.live }
+
+/-- `OnCompleted` → `recordCompleteFor(InboundNode())` for inbound entries: rt, complete += batch, gauge −1 -/
+def onExit (s : St R) (e : Entry) : St R :=
+  let s := { s with live := s.live.eraseP (·.id == e.id) }
+  if e.inbound then
+    let s := record s (evBucket .rt (s.now - e.start))
+    let s := record s (evBucket .complete e.batch)
+    { s with conc := s.conc - 1 }
+  else s
+
+/-- one op -/
 def step (A : Arith R) (spec : Bool) (s : St R) : Op R → St R × Res
   | .load rs => ({ s with rules := loadRules A rs }, .none)
   | .sysLoad x => ({ s with load := x }, .none)
   | .sysCpu x => ({ s with cpu := x }, .none)
   | .clock t =>
-      if !s.started then
+      if t = 0 then (s, .bad)          -- time 0 is "no time" in this library (`now <= 0` guards)
+      else if !s.started then
         ({ s with started := true, now := t, t0 := t, arr := mk gN gL t }, .none)
       else if t < s.now then (s, .bad)
       else ({ s with now := t }, .none)
   | .entry id inbound batch =>
-      if !s.started || s.live.any (·.id == id) then (s, .bad) else
-      let v := viewOf spec s
-      let blocked := if spec then specBlocked A inbound s.rules v else (check A inbound s.rules v).isSome
-      if blocked then
-        -- `OnEntryBlocked`: the block is counted on the inbound node (only inbound entries get here)
-        (record s (evBucket .block batch), .blockSys)
-      else
-        let e : Entry := { id := id, inbound := inbound, start := s.now, batch := batch }
-        if inbound then
-          -- `OnEntryPassed` → `recordPassFor(InboundNode())`: gauge +1, peak sample, pass += batch
-          let s := { s with conc := s.conc + 1 }
-          let s := record s (concBucket s.conc)
-          let s := record s (evBucket .pass batch)
-          ({ s with live := e :: s.live }, .pass)
-        else ({ s with live := e :: s.live }, .pass)
+      if !s.started || s.live.any (·.id == id) then (s, .bad)
+      else if blockedBy A spec s inbound then (onBlocked s batch, .blockSys)
+      else (onPassed s { id := id, inbound := inbound, start := s.now, batch := batch }, .pass)
   | .exit id =>
       if !s.started then (s, .bad) else
       match s.live.find? (·.id == id) with
       | none => (s, .none)
-      | some e =>
-        let s := { s with live := s.live.filter (fun x => !(x.id == id)) }
-        if e.inbound then
-          -- `OnCompleted` → `recordCompleteFor(InboundNode())`: rt, complete += batch, gauge −1
-          let s := record s (evBucket .rt (s.now - e.start))
-          let s := record s (evBucket .complete e.batch)
-          ({ s with conc := s.conc - 1 }, .none)
-        else (s, .none)
+      | some e => (onExit s e, .none)
 
 def run (A : Arith R) (spec : Bool) (s : St R) : List (Op R) → St R × List Res
   | [] => (s, [])
